@@ -63,6 +63,38 @@ def gen_case(ctx):
     }
 
 
+def gen_long_case(ctx):
+    """Long, almost empty data with the pattern planted next to the places where a chunked or byte-windowed search
+    changes regime: multiples of 8192 bits counted from either end of the data or of the window, byte boundaries."""
+    rng = ctx.rng
+    L = rng.choice([8193, 8200, 8235, 9000, 16384, 16390, 16500, 20011, 24600]) + rng.choice([0, 0, 1, 3, 5, 8])
+    pl = rng.choice([8, 8, 16, 9, 12, 3, 24, 17])
+    p = '1' + rb(rng, pl - 2) + '1' if pl > 1 else '1'
+    st = rng.choice([None, None, 0, 3, 8, 13, 8192, 8195])
+    en = rng.choice([None, None, L, L - 3, L - 8, L - 11, 16384, 8192 + 43, L - 8192])
+    w = norm_window(st, en, L) or (0, L)
+    fill = rng.choice(['0', '0', '0', '1']) if '0' in p else '0'
+    d = [fill] * L
+    edges = set()
+    for base in (0, L, w[0], w[1]):
+        for k in (-2, -1, 0, 1, 2):
+            edges.add(base + k * 8192)
+            edges.add(8 * ((base + k * 8192) // 8))
+    cands = [e + dlt for e in edges for dlt in (-pl - 8, -pl - 1, -pl, -pl + 1, -9, -8, -7, -1, 0, 1, 7, 8, 9)]
+    cands = [c for c in cands if 0 <= c <= L - pl]
+    for pos in rng.sample(cands, min(len(cands), rng.choice([1, 1, 2, 3]))) if cands else []:
+        if rng.random() < 0.6:
+            pos -= pos % 8
+        d[pos:pos + pl] = list(p)
+    return {
+        'cls': rng.choice(util.CLASS_NAMES), 'data': ''.join(d),
+        'pat': util.operand_spec(rng, p, ['Bits', 'BitArray', 'str', 'bitarray']),
+        'start': st, 'end': en, 'count': rng.choice([None, None, 1, 2]),
+        'ba': rng.choice([None, False, True, True]), 'oba': rng.choice([False, True]),
+        'cutbits': rng.choice([4096, 8192, 8193, 1000]), 'cntval': 1, 'new': rb(rng, rng.choice([0, 1, 8])),
+    }
+
+
 def _shape(got, exp_kind, exp_classes=None):
     kind, val = got
     if exp_kind == 'exc':
@@ -218,7 +250,7 @@ def run(ctx):
         directed(ctx)
     n = ctx.scale(36000, 600000)
     for i in range(n):
-        c = gen_case(ctx)
+        c = gen_long_case(ctx) if i % 12 == 5 else gen_case(ctx)
         ctx.run_case(judge, c)
         if i % 997 == 0:
             ctx.sample(short(c))
